@@ -28,7 +28,9 @@ def fold_case(tokens):
         elif k == "dot":
             t = t.lower()
         elif k == "num":
-            t = t.lower() if any(c in t for c in "EeDd") and "_" not in t else t
+            # the exponent letter only: a kind suffix (3.E5_wp) is a name
+            head, sep, kind = t.partition("_")
+            t = head.lower() + sep + kind
         out.append((k, t))
     return out
 
